@@ -95,7 +95,7 @@ type Stream struct {
 	Body    string
 	Restart int // inputs after which a fresh interpreter is started (default 2000)
 	// MaxWork: a fresh interpreter is also started once the work units handed
-	// to NextW since the last start exceed this (default 60000).  gojq's
+	// to NextW since the last start exceed this (default 20000).  gojq's
 	// variable frame of a long-running evaluation only ever grows (one slot
 	// block per function call that is not backtracked over): a million rows
 	// through one interpreter hold gigabytes.
@@ -146,7 +146,7 @@ func (s *Stream) NextW(input any, work int) ([]any, error) {
 	}
 	maxWork := s.MaxWork
 	if maxWork <= 0 {
-		maxWork = 60000
+		maxWork = 20000
 	}
 	if s.iter == nil || s.n >= restart || (s.work > 0 && s.work+work > maxWork) {
 		if err := s.open(); err != nil {
